@@ -199,12 +199,63 @@ def gen_hole_around(rng):
     return A, B, tag
 
 
+def gen_mixed_collection(rng):
+    """a polygonal operand (the prepared variants prepare each side in turn) against a MIXED-dimension GEOMETRYCOLLECTION: one areal
+    element plus point / line elements, exactly one of which interacts with the polygon (contains it, lies in it, crosses it, touches
+    it) while the others are far away; or none interacts and the nearest element is a point, a line or the area"""
+    W = rng.randint(3, 10) * 2; H = rng.randint(3, 10) * 2
+    P = ('Polygon', [G.rect_ring(0, 0, W, H)] + ([G.rect_ring(W // 2 - 1, H // 2 - 1, W // 2 + 1, H // 2 + 1)[::-1]] if rng.random() < 0.3 and W >= 8 and H >= 8 else []))
+    far = lambda i: (200 + 40 * i, 300 + 25 * i)
+    fpt = lambda i: ('Point', far(i))
+    fline = lambda i: ('LineString', [far(i), (far(i)[0] + rng.randint(1, 9), far(i)[1] + rng.randint(-5, 5))])
+    farea = lambda i: ('Polygon', [G.rect_ring(far(i)[0], far(i)[1], far(i)[0] + rng.randint(2, 9), far(i)[1] + rng.randint(2, 9))])
+    kind = rng.choice(['area-contains', 'area-contains', 'area-contains-holed', 'point-inside', 'line-crosses', 'line-inside', 'area-touches',
+                       'area-overlaps', 'disjoint-near-point', 'disjoint-near-line', 'disjoint-near-area', 'in-hole-of-area'])
+    g = rng.randint(1, 4)
+    if kind == 'area-contains':          # the polygon strictly inside the areal element; point / line elements elsewhere
+        els = [('Polygon', [G.rect_ring(-g - 3, -g - 2, W + g + 2, H + g + 4)]), fpt(0), fline(1)]
+    elif kind == 'area-contains-holed':  # ... the areal element has a hole elsewhere
+        els = [('Polygon', [G.rect_ring(-g - 12, -g - 2, W + g + 2, H + g + 4), G.rect_ring(-g - 10, 0, -g - 5, 3)[::-1]]), fline(0)]
+    elif kind == 'point-inside':
+        els = [farea(0), ('Point', (1, H - 1)), fline(1)]
+    elif kind == 'line-crosses':
+        els = [farea(0), fpt(1), ('LineString', [(-g, H // 2 if P[1][1:] == [] else 1), (W + g, H // 2 + 1 if P[1][1:] == [] else 1)])]
+    elif kind == 'line-inside':          # first vertex of the line is inside the polygon
+        els = [farea(0), ('LineString', [(1, 1), (2, 1), (W - 1, 1)]), fpt(1)]
+    elif kind == 'area-touches':
+        els = [fpt(0), ('Polygon', [G.rect_ring(W, 1, W + g + 2, H + 3)]), fline(1)]
+    elif kind == 'area-overlaps':
+        els = [fline(0), ('Polygon', [G.rect_ring(W - 1, H - 1, W + g + 2, H + g + 2)]), fpt(1)]
+    elif kind == 'disjoint-near-point':
+        els = [farea(0), ('Point', (W + g, H + g)), fline(1)]
+    elif kind == 'disjoint-near-line':
+        els = [farea(0), fpt(1), ('LineString', [(W + g, -3), (W + g + 2, H + 5)])]
+    elif kind == 'disjoint-near-area':
+        els = [fpt(0), fline(1), ('Polygon', [G.rect_ring(W + g, -1, W + g + 5, H // 2)])]
+    else:                                # the polygon inside a HOLE of the areal element: positive distance to the hole ring
+        els = [('Polygon', [G.rect_ring(-20, -20, W + 20, H + 20), G.rect_ring(-g - 1, -g - 2, W + g + 1, H + g + 2)[::-1]]), fpt(0), fline(1)]
+    rng.shuffle(els)
+    if rng.random() < 0.25:
+        els.insert(rng.randint(0, len(els)), rng.choice([('Point', None), ('LineString', []), ('Polygon', [])]))
+    if rng.random() < 0.2:               # nested
+        els = [els[0], ('GeometryCollection', els[1:])]
+    C = ('GeometryCollection', els)
+    A = P if rng.random() < 0.7 else ('MultiPolygon', [P, farea(5)])
+    if rng.random() < 0.5:
+        return C, A, 'mixed-' + kind
+    return A, C, 'mixed-' + kind
+
+
 def gen_pair(rng, quick):
     """-> (tag, A, B) on the integer grid (before the coordinate transform)"""
     R = rng.choice([6, 20, 20, 60])
     k = rng.random()
-    if rng.random() < 0.08:
+    pre = rng.random()
+    if pre < 0.08:
         A, B, tag = gen_hole_around(rng)
+        k = 2.0
+    elif pre < 0.15:
+        A, B, tag = gen_mixed_collection(rng)
         k = 2.0
     elif k < 0.22:
         A = G.gen_geom(rng, R); B = G.gen_geom(rng, R); tag = 'random'
@@ -588,12 +639,12 @@ def evaluate(c):
                 elif pkind == 'basic' and plain not in ('EXC', None) and ((j == 1 and got[j] == '1' and unhex(plain) < vv) or (j == 0 and got[j] == '0' and unhex(plain) > vv)) \
                         and accept(plain, D, tau) != 'bad':
                     kinds.add('known:C08-K6')          # BasicPreparedGeometry: distance from the rounded nearest points, within from DistanceOp
-                elif pkind == 'indexed' and got[j] == '0' and single_but_disconnected(prep) and not env_contains(a1, a0) and D is not None \
-                        and (math.isinf(t) or (Fraction(t) + tau) ** 2 >= D):
-                    kinds.add('known:C08-K8')          # envelope heuristic of IndexedFacetDistance::isWithinDistance applied to disconnected linework
                 elif math.isfinite(t) and D is not None and (Fraction(vv) ** 2 != D or pkind == 'indexed' or not small_grid) and \
                         max(Fraction(t) - tau, 0) ** 2 <= D <= (Fraction(t) + tau) ** 2:
                     kinds.add('known:C08-K1')          # the returned distance is inexact (or the indexed heuristic measures to the envelope) and the threshold lies inside the rounding envelope
+                elif pkind == 'indexed' and got[j] == '0' and single_but_disconnected(prep) and not env_contains(a1, a0) and D is not None \
+                        and (math.isinf(t) or (Fraction(t) + tau) ** 2 >= D):
+                    kinds.add('known:C08-K8')          # envelope heuristic of IndexedFacetDistance::isWithinDistance applied to disconnected linework
                 else:
                     kinds.add('viol')
             st = 'viol' if 'viol' in kinds else sorted(kinds)[0]
@@ -758,7 +809,7 @@ def sections_tie(ctx, drv):
 
 def run(ctx):
     ctx.cov['rule'] = ('pairs of non-empty geometries (points, lines, polygons with holes, multi-geometries, collections with EMPTY elements) in '
-                       'random / derived-touching / far / containment (interior, hole, annulus) / in-and-around-a-hole / collinear-parallel / T-junction / near-miss / '
+                       'random / derived-touching / far / containment (interior, hole, annulus) / in-and-around-a-hole / polygon-vs-mixed-dimension-collection / collinear-parallel / T-junction / near-miss / '
                        'many-component and large (index pruning) configurations, on the integer grid, after an exact dyadic similarity (full mantissas, contacts stay exact) '
                        'or after an inexact affine map at several magnitudes; every entry point evaluated on each pair; non-trivial = at least one '
                        'segment on one side and the pair is not two single points; distinct by the WKB of the pair')
@@ -848,7 +899,7 @@ def run(ctx):
     for c in cases[:4]:
         ctx.sample('%s/%s A=%s B=%s' % (c.tag, c.tr, G.to_wkt(c.A)[:150], G.to_wkt(c.B)[:150]))
     # generator self-check: every configuration class and both zero / positive distances must have been drawn
-    for need in ['random', 'derived', 'far', 'contain', 'collinear', 'parallel', 'tjunction', 'nearmiss', 'hole-around', 'many', 'big', '+empty']:
+    for need in ['random', 'derived', 'far', 'contain', 'collinear', 'parallel', 'tjunction', 'nearmiss', 'hole-around', 'mixed-', 'many', 'big', '+empty']:
         if not any(need in t for t in dist['config']):
             ctx.broken.append(dict(kind='generator', name='distribution', detail='no %s configuration generated' % need))
     if dist['zero_distance'] == 0 or dist['positive_distance'] == 0:
